@@ -8,7 +8,7 @@ exit 3: (internal) candidate violations need confirmation by fresh-process repla
 """
 import glob, json, os, re, shutil, subprocess, sys, time
 
-VERIF = '/verif'
+VERIF = os.path.dirname(os.path.abspath(__file__))  # /verif, or a snapshot of it
 SCR_DIR = ['']
 
 COMPONENTS = {
